@@ -505,6 +505,25 @@ def _members(node):
     return r
 
 
+def _single_pass_ok(spec, node):
+    from omv.gen.models import comp_graph
+    edges, _ = comp_graph(spec)
+
+    def walk(n):
+        if 'comp' in n:
+            return True
+        kids = n['children']
+        mem = [set(_members(k)) for k in kids]
+        if n.get('nl', {}).get('type', 'runonce') == 'runonce':
+            for a, b in edges:
+                ia = [i for i, m in enumerate(mem) if a in m]
+                ib = [i for i, m in enumerate(mem) if b in m]
+                if ia and ib and ia[0] > ib[0]:
+                    return False
+        return all(walk(k) for k in kids)
+    return walk(node)
+
+
 def _sub_solvers(node):
     out = []
 
@@ -919,6 +938,10 @@ def _run_group(case, acc):
     if not members:
         raise HarnessSkip('group-without-components')
     solv = _sub_solvers(node)
+    if not total and not _single_pass_ok(spec, node):
+        # a RunOnce group whose children are connected against their execution order is not solved by one pass
+        # (the enclosing loop does it): its FD "solve" is not a solve, the semi-total is undefined
+        raise HarnessSkip('group-not-solved-by-its-own-solver')
     asm_ancestor = False
     nd = spec['tree']
     for gname in (None,) + tuple(gpath[:-1]):
